@@ -5,3 +5,7 @@ pub assume_specification<T, A: std::alloc::Allocator>[ std::vec::Vec::<T, A>::sh
 // std::mem::take: returns the old value (the value left behind is T::default(), not specified here)
 pub assume_specification<T: std::default::Default>[ std::mem::take ](x: &mut T) -> (r: T)
     ensures r == *old(x);
+
+// [T]::contains for element types whose == is structural (used with &String): membership
+pub assume_specification<T: core::cmp::PartialEq>[ <[T]>::contains ](s: &[T], x: &T) -> (r: bool)
+    ensures r == exists|i: int| 0 <= i < s@.len() && #[trigger] s@[i] == *x;
